@@ -79,11 +79,11 @@ Proof.
   - destruct (lookup t p) as [[n k s d ff|n ch df]|]; [| |exact T].
     + pose proof (handle_file_tinv c p (File n k s d ff) false st T) as T'.
       destruct (handle_file c p (File n k s d ff) false st) as [st' [| |a]|st' pc]; cbn [wres_state] in *; try exact T'; apply IH; exact T'.
-    + destruct (if c_gitignore c then match parse_parent_gitignores t p with Some ms => Some (set_stack st ms) | None => None end else Some st)
+    + destruct (if c_gitignore c then match parse_parent_gitignores t p with Some ms => Some (set_stack st ms) | None => if c_fatal c then None else Some (set_stack st []) end else Some st)
         as [st0|] eqn:E0; [|exact T].
       assert (T0 : tinv c st0).
       { destruct (c_gitignore c); [|inversion E0; subst; exact T].
-        destruct (parse_parent_gitignores t p); inversion E0; subst. apply tinv_stack. exact T. }
+        destruct (parse_parent_gitignores t p); [|destruct (c_fatal c)]; inversion E0; subst; apply tinv_stack; exact T. }
       pose proof (walk_dir_unsorted_tinv c t p st0 T0) as T'.
       destruct (walk_dir_unsorted c t p st0) as [st' [| |a]|st' pc]; cbn [wres_state] in *; try exact T';
         try (apply tinv_stack; exact T'); apply IH; apply tinv_stack; exact T'.
